@@ -521,7 +521,7 @@ def r_arch_guard(model, rep):
         f = _fref(model, q)
         cx = facts.fctx(model, f)
         tabs = [g[0][2][1] for ev in cx.events if ev.kind == "raise" for g in ev.guards
-                if g[0][0] == "cmp" and g[0][1] == ("not in",) and g[0][2][0] == P("arch")]
+                if g[0][0] == "cmp" and g[0][1] == ("in",) and not g[1] and g[0][2][0] == P("arch")]
         ok = bool(tabs) and tabs[0][0] == "global" and model.resolve_name(f.module, tabs[0][1]) is not None \
             and model.resolve_name(f.module, tabs[0][1])[:2] == ("const", "RPM_ARCHES")
         rep.ob("R-ARCH-GUARD", "%s:table-is-common.RPM_ARCHES" % q, ok, site=cx.site(f.node),
@@ -615,7 +615,7 @@ def r_src_route(model, rep):
             msg = "the source package must be looked up in the variant's 'src' table under the same source-package key"
             if ok:
                 ok = s.value[2][2] == sn and s.value[2][5] == ("const", "source") and len(s.value[2]) == 6 \
-                    and (("cmp", ("is not",), (srpm_data, ("const", None))), True) in s.guards \
+                    and (("cmp", ("is",), (srpm_data, ("const", None))), False) in s.guards \
                     and s.value[2][3] == ("sub", srpm_data, ("const", "path")) and s.value[2][4] == ("sub", srpm_data, ("const", "sigkey"))
                 msg = "the source package must be re-added with its own path/sigkey and category 'source', exactly when it is present"
             if ok:
